@@ -204,6 +204,13 @@ PrecisionOK(fmt, txt) ==
   Len(toks) = Len(nums) /\
   \A i \in 1..Len(nums) : LET p == ParseDec(toks[i]) IN p.ok => p.decimals >= DecimalsOf(nums[i])
 LineOK(fmt, vs, txt) == TokensOK(fmt, txt) /\ ValuesOK(fmt, vs, txt)
+(* a written zero is a value: a number that is 0, -0 or rounds to zero at the decimals of its format is a token of the  *)
+(* line and reads back as zero (not as "absent") - the value class {0.0, -0.0, 1e-9 at <= 8 decimals} of the domain     *)
+IsZeroAt(v, d) == Norm(RoundTo(v, d)).m = 0
+ZerosKept(fmt, vs, txt) ==
+  LET toks == Lex(fmt.cls, txt)  nums == NumItems(fmt) IN
+  \A i \in 1..Len(nums) : IsZeroAt(vs[i], DecimalsOf(nums[i])) =>
+      i <= Len(toks) /\ ParseDec(toks[i]).ok /\ ParseDec(toks[i]).v.m = 0
 
 -----------------------------------------------------------------------------
 (* model: values spanning the printable range *)
@@ -246,6 +253,7 @@ Spec == Init /\ [][Next]_vars
 InvTokens == pc = "done" => TokensOK(Formats[kind], text)
 InvValues == pc = "done" => ValuesOK(Formats[kind], vals, text)
 InvPrecision == pc = "done" => PrecisionOK(Formats[kind], text)
+InvZerosKept == pc = "done" => ZerosKept(Formats[kind], vals, text)
 (* fixed-point text never needs more columns than its field unless the value is large:   *)
 (* informative, the separators make it harmless                                         *)
 =============================================================================
